@@ -1214,6 +1214,12 @@ class RefAPI:
         return col.name
 
     @staticmethod
+    def expr_table(tbl, expr):
+        """ColExpr.export: the expression as a one-column table over the table all of its
+        columns live in"""
+        return tbl >> mutate(x=expr) >> select(RName("x"))
+
+    @staticmethod
     def collect(tbl, *, keep_col_refs=True):
         """collect(): same data, names, order and grouping; references stay valid"""
         if keep_col_refs:
